@@ -79,7 +79,8 @@ def run(chk):
             if pt:
                 kstar, th = pt
                 kms, steps_s, _ = kt.run_kfit(init, X, chunks, cap=8, cthr=th)
-                terms.append(kt.fit_term(init, X, chunks, 8, th, kms, steps_s))
+                if th >= 1e-10:          # as in C03: not when the deciding values are at the level of the rounding noise
+                    terms.append(kt.fit_term(init, X, chunks, 8, th, kms, steps_s))
                 kref, _, _ = kt.run_kfit(init, X, chunks, cap=kstar, cthr=None)
                 chk.count(1, key=("stop", kstar, bool(chunks)))
                 if steps_s != kstar:
